@@ -57,6 +57,19 @@ Section Params.
   Theorem C11_clones_same_params : forall (a : ctor_args) (ops : list clone_op),
     reported (clone_chain zero one h_scale clight sub mul div is_zero a ops) = reported (mk a).
   Proof. intros a ops. apply (clone_chain_reported zero one h_scale clight sub mul div is_zero zero_is_zero). Qed.
+
+  (* ... and gives the same distances: every observable quantity is a function of the fields of the C struct
+     (DH, flat, omega_m, omega_l, omega_k; the Gauss-Legendre tables do not depend on the parameters), so any such
+     function -- in particular the bit-exact binary64 chain of ModelF -- takes the same value on the clone *)
+  Theorem C11_clones_same_distances : forall (T : Type) (dist : num -> bool -> num -> num -> num -> T)
+                                             (a : ctor_args) (ops : list clone_op),
+    let o := clone_chain zero one h_scale clight sub mul div is_zero a ops in
+    let o0 := mk a in
+    dist (c_DH o) (c_flat o) (c_om o) (c_ol o) (c_ok o) = dist (c_DH o0) (c_flat o0) (c_om o0) (c_ol o0) (c_ok o0).
+  Proof.
+    intros T dist a ops o o0. pose proof (C11_clones_same_params a ops) as R. fold o o0 in R.
+    unfold reported in R. injection R as E1 E2 E3 E4 E5 E6. rewrite E2, E3, E4, E5, E6. reflexivity.
+  Qed.
 End Params.
 
 (* ================================================================ dispatch *)
